@@ -35,42 +35,47 @@ def run(ctx: Ctx):
     want = {k: k for k in ("ref", "hyp", "eos", "include_eos", "norm", "batch_first", "ins_cost", "del_cost", "sub_cost", "warn")}
     col.ob("G1", "S4", f"{where}::error_rate-binding", got == want, f"error_rate is called with {got}", rel, calls[0].lineno, sample=got)
     rd = ReachingDefs(f.node)
-    # roles by dataflow: ER = the variable holding error_rate(...).view(<batch>, <samples>); (batch, samples) are the
+    from sa.astutil import arg_or_kw, guards_of, parent_map
+    pm = parent_map(f.node)
+    # roles by dataflow: an expression "is the error rates" when it derives from the error_rate call; (batch, samples) are the
     # names unpacked from hyp.shape
-    er_assign = None
-    for n in own_nodes(f.node):
-        if isinstance(n, ast.Assign) and isinstance(n.targets[0], ast.Name) and any(x is calls[0] for x in ast.walk(n.value)):
-            er_assign = n
-    if er_assign is None:
-        raise AnalysisError("minimum_error_rate_loss does not bind the error rates to a variable")
-    ER = er_assign.targets[0].id
-    v = er_assign.value
-    view_args = [u(a) for a in v.args] if isinstance(v, ast.Call) and isinstance(v.func, ast.Attribute) and v.func.attr == "view" else []
+
+    def from_er(e):
+        return any(x is calls[0] for x in ast.walk(e)) or any(c is calls[0] for c in rd.derives(e).calls())
+    views = [c for c in own_calls(f.node) if isinstance(c.func, ast.Attribute) and c.func.attr in ("view", "reshape") and from_er(c.func.value)]
+    view_args = [u(a) for a in views[0].args] if len(views) == 1 else []
     shapes = [n for n in own_nodes(f.node) if isinstance(n, ast.Assign) and isinstance(n.targets[0], ast.Tuple) and u(n.value) == "hyp.shape"]
     okview = False
     for sh in shapes:
         names = [u(t) for t in sh.targets[0].elts]
-        from sa.astutil import guards_of as _g, parent_map as _p
-        bf = any(u(t) == "batch_first" and pol for t, pol in _g(_p(f.node), sh))
+        bf = any(u(t) == "batch_first" and pol for t, pol in guards_of(pm, sh))
         bs = (names[0], names[1]) if bf else (names[1], names[2])
         okview = okview or list(bs) == view_args
-    means = [c for c in own_calls(f.node) if isinstance(c.func, ast.Attribute) and c.func.attr == "mean" and c.args and u(c.func.value) == ER]
-    sms = [c for c in own_calls(f.node) if call_name(c).endswith("softmax") and len(c.args) >= 2]
-    ok = okview and len(means) == 1 and u(means[0].args[0]) == "1" and kwarg(means[0], "keepdim") is not None \
-        and len(sms) == 1 and u(sms[0].args[1]) == "1" and u(sms[0].args[0]) == "log_probs"
+    means = [c for c in own_calls(f.node) if isinstance(c.func, ast.Attribute) and c.func.attr == "mean" and (c.args or c.keywords)
+             and from_er(c.func.value)]
+    sms = [c for c in own_calls(f.node) if call_name(c).endswith("softmax")]
+
+    def axis(c, pos):
+        a_ = arg_or_kw(c, pos, "dim")
+        return u(a_) if a_ is not None else None
+    sm_axis = [axis(c, 1 if call_name(c) != "softmax" and not (isinstance(c.func, ast.Attribute) and u(c.func.value) == "log_probs") else 0) for c in sms]
+    sm_src = [u(c.args[0]) if call_name(c).startswith("torch") and c.args else u(c.func.value) if isinstance(c.func, ast.Attribute) else None for c in sms]
+    ok = okview and len(means) == 1 and axis(means[0], 0) == "1" and kwarg(means[0], "keepdim") is not None and u(kwarg(means[0], "keepdim")) == "True" \
+        and len(sms) == 1 and sm_axis == ["1"] and sm_src == ["log_probs"]
     col.ob("G13", "S4", f"{where}::samples-axis-agreement", ok,
            f"error rates are shaped {view_args} (batch, samples) but the mean / softmax use axes "
-           f"{[u(c.args[0]) for c in means]} / {[u(c.args[1]) for c in sms]}; all must be the samples axis 1", rel, f.line,
+           f"{[axis(c, 0) for c in means]} / {sm_axis}; all must be the samples axis 1", rel, f.line,
            sample=dict(view=view_args, mean=[u(c) for c in means], softmax=[u(c) for c in sms]))
-    from sa.astutil import guards_of, parent_map
-    pm = parent_map(f.node)
-    sub = [n for n in own_nodes(f.node) if isinstance(n, ast.Assign) and isinstance(n.value, ast.BinOp) and isinstance(n.value.op, ast.Sub)
-           and "mean" in u(n.value.right) and u(n.targets[0]) == u(n.value.left) == ER]
+    sub = [n for n in own_nodes(f.node) if isinstance(n, ast.BinOp) and isinstance(n.op, ast.Sub) and means and any(x is means[0] for x in ast.walk(n.right))
+           and from_er(n.left)]
     col.ob("G16", "S4", f"{where}::mean-subtracted-iff-sub_avg", len(sub) == 1 and any(u(t) == "sub_avg" and pol for t, pol in guards_of(pm, sub[0])),
            "the average error rate is not subtracted exactly when sub_avg is set", rel, f.line)
-    prod = [n for n in own_nodes(f.node) if isinstance(n, ast.Assign) and isinstance(n.value, ast.BinOp) and isinstance(n.value.op, ast.Mult)
-            and "softmax" in u(n.value)]
-    col.ob("G16", "S4", f"{where}::loss=er*softmax(log_probs)", len(prod) == 1 and ER in (u(prod[0].value.left), u(prod[0].value.right)),
+
+    def is_softmax(e):
+        return bool(sms) and (any(x is sms[0] for x in ast.walk(e)) or any(c is sms[0] for c in rd.derives(e).calls()))
+    prod = [n for n in own_nodes(f.node) if isinstance(n, ast.BinOp) and isinstance(n.op, ast.Mult)
+            and ((from_er(n.left) and is_softmax(n.right) and not from_er(n.right)) or (from_er(n.right) and is_softmax(n.left) and not from_er(n.left)))]
+    col.ob("G16", "S4", f"{where}::loss=er*softmax(log_probs)", len(prod) == 1,
            "the loss is not er * softmax(log_probs)", rel, f.line)
     R_enum.g8_dispatch(pkg, res, col, f, "reduction", "S4", members=["mean", "sum", "none"], allow_else=0)
     # the reshaping keeps ref and hyp aligned: both flattened over (batch, samples) in the same order per layout
